@@ -553,6 +553,13 @@ pub fn run(args: &Args) {
         if got != vec![2] || !some.slice_at(20).dirty_at(0) || some.slice_at(30).dirty_at(0) {
             out::viol("C09/option-some-slice", jobj! {"pages" => got});
         }
+        // default-constructed slices: views of an empty bitmap
+        let ds: ArcSlice<AtomicBitmap> = ArcSlice::default();
+        ds.mark_dirty(0, 10);
+        ds.slice_at(5).mark_dirty(3, usize::MAX);
+        if ds.dirty_at(0) || ds.slice_at(7).dirty_at(1) || format!("{:?}", ds).is_empty() {
+            out::viol("C09/default-slice", J::Null);
+        }
         out::key("trivial|unit|none|some", true);
     }
     // page indices beyond 2^32 (a 16 TiB guest with 4 KiB pages; here: page size 1): index
